@@ -1,6 +1,8 @@
 import Fabio.Driver.Proto
 import Fabio.Model.C20Spec
 import Fabio.Model.C20Capture
+import Fabio.Model.C20Url
+import Fabio.Model.C20Serve
 /-!
 Driver handlers for C20. For every stream: `model` = output of the Lean model on the case's input,
 `agree` = equals the implementation's output, `spec` = the specification (`Model/C20Spec.lean`: built on
@@ -547,8 +549,360 @@ def reentrantH : Handler := fun inp impl => do
     n == workers * per * 4 && rsum.map hex64 == some isum
   return ({ model := m, agree := m == ci, spec := spec, nontrivial := workers ≥ 2, tag := tag } : Verdict).toJson
 
+/-! ### the URL fields against the `net/url` model -/
+
+namespace U
+open Fabio.Model.C20Url
+
+/-- byte strings travel as Latin-1 text: one rune per byte -/
+def bytesOf (j : Json) (k : String) : Except String Bytes :=
+  match j.getObjValAs? String k with
+  | .ok s =>
+    let l := s.toList.map Char.toNat
+    if l.all (· < 256) then .ok l else .error s!"field {k}: rune above U+00FF"
+  | .error _ => .ok []
+
+def l1 (b : Bytes) : Json := Json.str (String.ofList (b.map Char.ofNat))
+
+def urlOfJson (j : Json) : Except String URL := do
+  let userJ := (j.getObjVal? "user").toOption.getD Json.null
+  let user ← if userJ.isNull then pure none else do
+    let name ← bytesOf userJ "name"
+    let pwJ := (userJ.getObjVal? "pw").toOption.getD Json.null
+    let pw ← if pwJ.isNull then pure none else (some <$> bytesOf userJ "pw")
+    pure (some (name, pw))
+  return {
+    scheme := ← bytesOf j "scheme", opaq := ← bytesOf j "opaque", user := user, host := ← bytesOf j "host"
+    path := ← bytesOf j "path", rawPath := ← bytesOf j "rawpath"
+    omitHost := (j.getObjValAs? Bool "omithost").toOption.getD false
+    forceQuery := (j.getObjValAs? Bool "forcequery").toOption.getD false
+    rawQuery := ← bytesOf j "query", fragment := ← bytesOf j "frag", rawFragment := ← bytesOf j "rawfrag" }
+
+def stripSuffix (s suf : Bytes) : Option Bytes :=
+  if suf.length ≤ s.length ∧ s.drop (s.length - suf.length) = suf then some (s.take (s.length - suf.length)) else none
+
+def stripPrefix (s pre : Bytes) : Option Bytes := if s.take pre.length = pre then some (s.drop pre.length) else none
+
+/-- Specification on the logged text, by decoding it (no use of `escape`/`urlString`): the request URI is a
+path-safe text that decodes to `Path` (or `/` for the empty path) followed by `?query`; for the URLs the proxy
+logs the URL is `scheme://` + something that decodes to `Host` + the request URI. -/
+def uriOk (u : URL) (uri : Bytes) : Bool :=
+  match stripSuffix uri (queryPart u) with
+  | none => false
+  | some p =>
+    p != [] && p.all pathSafe && (unescape p == some u.path || (u.path == [] && p == [47]))
+
+def proxyForm (u : URL) : Bool :=
+  u.scheme != [] && u.host != [] && u.opaq == [] && u.user.isNone && u.fragment == [] && u.path.head? == some 47
+
+def urlOk (u : URL) (url uri : Bytes) : Bool :=
+  match stripPrefix url (u.scheme ++ [58, 47, 47]), stripSuffix url uri with
+  | some _, some pre => unescape (pre.drop (u.scheme.length + 3)) == some u.host
+  | _, _ => false
+
+end U
+
+open Fabio.Model.C20Url in
+def urlH : Handler := fun inp impl => do
+  let u ← U.urlOfJson inp
+  let ms := urlString u
+  let m := Json.mkObj [("epath", U.l1 (escapedPath u)), ("rurl", U.l1 ms), ("uri", U.l1 (requestURI u)), ("url", U.l1 ms)]
+  let ci := canonImpl impl
+  if isPanicJ impl then
+    return ({ model := m, agree := false, spec := false, nontrivial := true, tag := "panic" } : Verdict).toJson
+  let url ← U.bytesOf ci "url"
+  let rurl ← U.bytesOf ci "rurl"
+  let uri ← U.bytesOf ci "uri"
+  let pform := U.proxyForm u
+  let sUri := u.opaq != [] || U.uriOk u uri
+  let sUrl := !pform || (U.urlOk u url uri && rurl == url)
+  let spec := !differsFromStd impl && sUri && sUrl
+  let needsEsc := u.path.any (shouldEscape · .path) || u.host.any (shouldEscape · .host)
+  let rawUsed := u.rawPath != [] && escapedPath u == u.rawPath
+  let tag := if differsFromStd impl then "differs-from-net-url"
+    else if !sUri then "uri-does-not-decode-to-path" else if !sUrl then "url-does-not-decode"
+    else if !pform then (if u.opaq != [] then "opaque" else "general-form")
+    else if rawUsed then "rawpath-kept" else if u.rawPath != [] then "rawpath-ignored"
+    else if needsEsc then "escaped" else "plain"
+  return ({ model := m, agree := m == ci, spec := spec,
+            nontrivial := needsEsc || u.rawPath != [] || !pform, tag := tag } : Verdict).toJson
+
+/-! ### whole requests through ServeHTTP -/
+
+namespace S
+open Fabio.Model.C20Url Fabio.Model.C20Serve Fabio.Model.C20Capture
+
+def utf8 (s : String) : Bytes := s.toUTF8.toList.map (·.toNat)
+
+def textOf (bs : Bytes) : String :=
+  match String.fromUTF8? (ByteArray.mk (bs.map UInt8.ofNat).toArray) with
+  | some s => s
+  | none => "�(invalid UTF-8)"
+
+def textL (bs : Bytes) : List Char := (textOf bs).toList
+
+def fld (j : Json) (k : String) : Json := (j.getObjVal? k).toOption.getD Json.null
+def strOf (j : Json) (k : String) : String := (j.getObjValAs? String k).toOption.getD ""
+def bytesAt (j : Json) (k : String) : Bytes := utf8 (strOf j k)
+def boolAt (j : Json) (k : String) : Bool := (j.getObjValAs? Bool k).toOption.getD false
+def natAt (j : Json) (k : String) : Nat := (j.getObjValAs? Nat k).toOption.getD 0
+def intAtK (j : Json) (k : String) : Int := (j.getObjValAs? Int k).toOption.getD 0
+def natList (j : Json) (k : String) : List Nat := ((j.getObjValAs? (Array Nat) k).toOption.getD #[]).toList
+
+/-- a `url.URL` written as text fields -/
+def urlOfText (j : Json) : URL :=
+  let uj := fld j "user"
+  { scheme := bytesAt j "scheme", opaq := bytesAt j "opaque", host := bytesAt j "host", path := bytesAt j "path",
+    rawPath := bytesAt j "rawpath", omitHost := boolAt j "omithost", forceQuery := boolAt j "forcequery",
+    rawQuery := bytesAt j "query", fragment := bytesAt j "frag", rawFragment := bytesAt j "rawfrag",
+    user := if uj.isNull then none else some (bytesAt uj "name", if (fld uj "pw").isNull then none else some (bytesAt uj "pw")) }
+
+def headerOf (j : Json) : Header :=
+  match j.getArr? with
+  | .ok arr => arr.toList.map fun h => (utf8 (strOf h "k"), ((h.getObjValAs? (Array String) "v").toOption.getD #[]).toList.map utf8)
+  | .error _ => []
+
+/-- request headers as the handler receives them: canonical keys, the first entry of a key wins -/
+def canonHeader (h : Header) : Header :=
+  h.foldl (fun acc kv => let k := canonKey true kv.1; if acc.any (·.1 == k) then acc else acc ++ [(k, kv.2)]) []
+
+def reqOf (j : Json) : Req :=
+  let u := fld j "url"
+  let t := fld j "tls"
+  { remoteAddr := bytesAt j "remote", method := bytesAt j "method", requestURI := bytesAt j "uri", proto := bytesAt j "proto",
+    host := bytesAt j "host", header := canonHeader (headerOf (fld j "hdr")),
+    url := { path := bytesAt u "path", rawPath := bytesAt u "rawpath", rawQuery := bytesAt u "query", forceQuery := boolAt u "forcequery" },
+    tls := if t.isNull then none else some { version := natAt t "ver", cipher := natAt t "cs" } }
+
+def targetOf (j : Json) : Option Target :=
+  if j.isNull then none else
+  some { scheme := bytesAt j "scheme", host := bytesAt j "host", rawQuery := bytesAt j "query", stripPath := bytesAt j "strip",
+         prependPath := bytesAt j "prepend", hostOpt := bytesAt j "hostopt", service := bytesAt j "svc",
+         redirect := intAtK j "redirect" != 0, authorized := strOf j "auth" == "" }
+
+def upOf (j : Json) : Upstream :=
+  match strOf j "err" with
+  | "" => .response (natList j "info") (natAt j "status") (natList j "chunks")
+  | "timeout" => .error .timeout | "net" => .error .net | "eof" => .error .eof | "canceled" => .error .canceled
+  | _ => .error .other
+
+def urlJ (u : URL) : Json :=
+  Json.mkObj [("scheme", textOf u.scheme), ("opaque", textOf u.opaq), ("host", textOf u.host), ("path", textOf u.path),
+    ("rawpath", textOf u.rawPath), ("forcequery", u.forceQuery), ("query", textOf u.rawQuery), ("frag", textOf u.fragment),
+    ("user", u.user.isSome)]
+
+/-- the event as JSON, headers restricted to the (canonical) names the format prints -/
+def eventJ (names : List Bytes) (e : LogEvent) : Json :=
+  Json.mkObj [("remote", textOf e.remoteAddr), ("method", textOf e.method), ("uri", textOf e.requestURI), ("proto", textOf e.proto),
+    ("host", textOf e.host), ("hdr", Json.arr (names.map fun k => Json.arr #[textOf k, textOf (hget e.header k)]).toArray),
+    ("rurl", urlJ e.requestURL), ("uurl", urlJ e.upstreamURL), ("uaddr", textOf e.upstreamAddr), ("usvc", textOf e.upstreamService),
+    ("status", e.status), ("size", e.size)]
+
+/-- the event ServeHTTP really built, as recorded by the harness -/
+def implEvent (ev : Json) : LogEvent :=
+  let rq := fld ev "req"
+  { remoteAddr := bytesAt rq "remote", method := bytesAt rq "method", requestURI := bytesAt rq "uri", proto := bytesAt rq "proto",
+    host := bytesAt rq "host", header := headerOf (fld rq "hdr"), requestURL := urlOfText (fld ev "rurl"),
+    upstreamURL := urlOfText (fld ev "uurl"), upstreamAddr := bytesAt ev "uaddr", upstreamService := bytesAt ev "usvc",
+    status := natAt ev "status", size := natAt ev "size" }
+
+def viewOf (u : URL) : URLView :=
+  { scheme := textL u.scheme, rawQuery := textL u.rawQuery, requestURI := textL (requestURI u), str := textL (urlString u) }
+
+/-- the char-level `Event` of `Model/C20.lean` for a served event and the clock readings -/
+def toEvent (e : LogEvent) (rview uview : URLView) (env : Json) : Event :=
+  let t := ((env.getObjVal? "t").toOption.bind (·.getArr?.toOption)).getD #[]
+  { hasRequest := true, remoteAddr := textL e.remoteAddr, method := textL e.method, requestURI := textL e.requestURI,
+    proto := textL e.proto, host := textL e.host,
+    header := some (e.header.map fun kv => (textL kv.1, kv.2.map textL)),
+    requestURL := some rview, upstreamURL := some uview, upstreamAddr := textL e.upstreamAddr,
+    upstreamService := textL e.upstreamService, status := e.status, contentLength := e.size,
+    durNs := intAtK env "dur", unixNano := intAtK env "unixnano",
+    year := intAt t 0, month := if t.size > 1 then intAt t 1 else 1, day := intAt t 2,
+    hour := intAt t 3, minute := intAt t 4, second := intAt t 5, nanos := intAt t 6 }
+
+def uuidShaped (s : String) : Bool :=
+  let l := s.toList
+  l.length == 36 && (List.range 36).all fun i =>
+    match l[i]? with
+    | some c => if [8, 13, 18, 23].contains i then c == '-' else isLowerHex c
+    | none => false
+
+/-- `Strict-Transport-Security` as the property wants it: `max-age=` + decimal digits + the configured
+directives; the number is the configured one when an int32 holds it and not smaller than the largest int32
+otherwise (a negative or wrapped number is what must not happen). -/
+def stsOk (cfg : Cfg) (v : String) : Bool :=
+  match v.toList.drop 0 |> (fun l => if l.take 8 == "max-age=".toList then some (l.drop 8) else none) with
+  | none => false
+  | some rest =>
+    let ds := rest.takeWhile Char.isDigit
+    let tail := rest.drop ds.length
+    let n : Nat := ds.foldl (fun (a : Nat) c => a * 10 + (c.toNat - 48)) 0
+    let wantTail := (if cfg.stsSubdomains then "; includeSubdomains" else "") ++ (if cfg.stsPreload then "; preload" else "")
+    !ds.isEmpty && (ds.length == 1 || ds.head? != some '0') && String.ofList tail == wantTail &&
+      (if cfg.stsMaxAge ≤ 2147483647 then (n : Int) == cfg.stsMaxAge else n ≥ 2147483647)
+
+def fwdSuffix (t : TLSState) : String :=
+  (if t.version > 0 then "; tlsver=" ++ (match tlsverName t.version with
+      | some n => String.ofList n | none => String.ofList (Spec.hex4 t.version)) else "") ++
+  (if t.cipher ≠ 0 then "; tlscipher=" ++ String.ofList (Spec.hex4 t.cipher) else "")
+
+structure ReqVerdict where
+  model : Json
+  implView : Json
+  spec : Bool
+  tag : String
+  logged : Bool
+  reqid : Option String
+
+def judge (cfg : Cfg) (items : List RItem) (rq out : Json) : ReqVerdict :=
+  let format := items.flatMap itemSrc
+  let names : List Bytes := (items.filter (·.kind == "header")).map fun it => canonKey true (utf8 (String.ofList it.v))
+  let r := reqOf rq
+  let tg := targetOf (fld rq "route")
+  let up := upOf (fld rq "up")
+  let upJ := fld out "up"
+  let called := boolAt upJ "called"
+  let seenId := strOf upJ "reqid"
+  let env := fld out "env"
+  let evJ := fld out "ev"
+  let lines : List String := ((out.getObjValAs? (Array String) "lines").toOption.getD #[]).toList
+  -- model
+  let served := serve cfg r tg (utf8 seenId) up
+  let (mEv, mLines) : Json × List String := match served with
+    | .logged e =>
+      let ev := toEvent e (viewOf e.requestURL) (viewOf e.upstreamURL) env
+      (eventJ names e, match newAndLog format ev with
+        | .ok (.written o) => if o.isEmpty then [] else [String.ofList o]
+        | _ => ["<model: no line>"])
+    | _ => (Json.null, [])
+  let reached := match served with | .logged _ => true | .noStatus => true | _ => false   -- past addResponseHeaders
+  let outJ : Option (Outcome (List Char)) → Json
+    | some (.ok v) => strJ v
+    | some (.panic _) => panicJson
+    | none => Json.null
+  let mSts := if reached then outJ (clientSTS r.tls.isSome cfg up) else Json.null
+  let mFwd := if reached then outJ (r.tls.map forwardedTLS) else Json.null
+  let model := Json.mkObj [("ev", mEv), ("lines", Json.arr (mLines.map Json.str).toArray), ("sts", mSts), ("fwdtls", mFwd)]
+  let iEv := if evJ.isNull then Json.null else eventJ names (implEvent evJ)
+  let fwdSeen := strOf upJ "fwd"
+  let tlsPart : String := match (fwdSeen.splitOn "; tlsver="), (fwdSeen.splitOn "; tlscipher=") with
+    | _ :: rest@(_ :: _), _ => "; tlsver=" ++ "; tlsver=".intercalate rest
+    | _, _ :: rest@(_ :: _) => "; tlscipher=" ++ "; tlscipher=".intercalate rest
+    | _, _ => ""
+  let iFwd := if called && r.tls.isSome then Json.str tlsPart else Json.null
+  let implView := Json.mkObj [("ev", iEv), ("lines", Json.arr (lines.map Json.str).toArray),
+    ("sts", if called then fld (fld out "client") "sts" else Json.null), ("fwdtls", iFwd)]
+  -- specification, on what was observed
+  let client := fld out "client"
+  let cStatus := natAt client "status"
+  let nEvents := natAt out "events"
+  let countOk := nEvents == (if evJ.isNull then 0 else 1) && natAt out "writes" == lines.length
+  let mk (spec : Bool) (tag : String) : ReqVerdict :=
+    { model := model, implView := implView, spec := spec, tag := tag, logged := !evJ.isNull,
+      reqid := if called && cfg.requestID != [] then some seenId else none }
+  if !countOk then mk false "event-or-write-count" else
+  if called != !evJ.isNull then mk false (if called then "upstream-request-not-logged" else "logged-without-upstream") else
+  if !boolAt out "twin_same" then mk false "response-differs-without-logger" else
+  -- the response: what the upstream said is what the client got
+  let transOk := !called || (natAt client "extra" == 0 && match up with
+    | .response info st chunks => cStatus == st && natList client "infos" == info && natAt client "body" == chunks.sum
+    | .error e => cStatus == errStatus e && natAt client "body" == 0)
+  if !transOk then mk false "client-did-not-get-upstream-response" else
+  -- headers that go through the formatters
+  let stsJ := fld client "sts"
+  -- (a relayed informational response makes the reverse proxy clear the header map: the header is then absent,
+  -- which is not a statement of this property; when it is there it must be right)
+  let relayed1xx := match up with | .response (_ :: _) _ _ => true | _ => false
+  let stsWanted := r.tls.isSome && cfg.stsMaxAge > 0 && called
+  let stsGood := match stsJ.getStr? with
+    | .ok v => stsWanted && stsOk cfg v
+    | .error _ => !stsWanted || relayed1xx
+  if !stsGood then mk false "sts-max-age" else
+  let fwdGood := match r.tls with
+    | some t => !called || (strOf upJ "fwd").endsWith (fwdSuffix t)
+    | none => true
+  if !fwdGood then mk false "forwarded-tls-parameters" else
+  if evJ.isNull then mk (lines.isEmpty) (if lines.isEmpty then "answered-by-proxy" else "line-without-event") else
+  -- the line: the standard library's rendering of the recorded event
+  let e := implEvent evJ
+  let rj := fld evJ "rurl"
+  let uj := fld evJ "uurl"
+  let goView (j : Json) : URLView :=
+    { scheme := (strOf j "scheme").toList, rawQuery := (strOf j "query").toList, requestURI := (strOf j "uri").toList, str := (strOf j "str").toList }
+  let ev := toEvent e (goView rj) (goView uj) env
+  let tj := fld rq "t"
+  let envOk := envMatchesInstant ev (intAtK tj "esec") (intAtK tj "ens") &&
+    envMatchesArith ev (intAtK tj "ssec") (intAtK tj "sns") (intAtK tj "esec") (intAtK tj "ens") &&
+    boolAt evJ "start_ok" && boolAt evJ "end_ok" && boolAt evJ "same_req"
+  if !envOk then mk false "calendar-mismatch" else
+  let urlModelOk := textOf (urlString e.requestURL) == strOf rj "str" && textOf (urlString e.upstreamURL) == strOf uj "str" &&
+    textOf (requestURI e.upstreamURL) == strOf uj "uri"
+  if !urlModelOk then mk false "url-model-mismatch" else
+  let refs := items.map (refItem ev)
+  let ref : List Char := (refs.map (·.getD [])).flatten
+  let names' := (items.filter (·.kind == "field")).map fun it => String.ofList it.v
+  let negDur := ev.durNs < 0 && names'.any (·.startsWith "$response_time")
+  let want := String.ofList (ref ++ ['\n'])
+  let std := strOf out "std"
+  let lineOk := negDur || (refs.all (·.isSome) && lines == [want] && want == std ++ "\n")
+  if ref.isEmpty then mk false "empty-rendering" else     -- D26: no line at all for a completed request
+  if !lineOk then mk false "line-differs-from-stdlib-rendering" else
+  -- the event: what happened
+  if !(e.status == cStatus && e.size == natAt client "body") then mk false "status-or-size-not-what-the-client-got" else
+  let seenURL := fld upJ "url"
+  if e.upstreamAddr != bytesAt seenURL "host" then mk false "upstream-addr-differs" else
+  if strOf uj "str" != strOf seenURL "str" then
+    mk false (if r.url.forceQuery && (urlOfText seenURL).rawQuery == [] then "upstream-url-empty-query" else "upstream-url-differs") else
+  let wantR : URL := { scheme := e.requestURL.scheme, host := r.host, path := r.url.path, rawPath := r.url.rawPath,
+                       forceQuery := r.url.forceQuery, rawQuery := r.url.rawQuery }
+  if strOf rj "str" != textOf (urlString wantR) then mk false "request-url-differs" else
+  let idOk := cfg.requestID == [] || (uuidShaped seenId && textOf (hget e.header (canonKey true cfg.requestID)) == seenId)
+  if !idOk then mk false "request-id" else
+  mk true (match up with
+    | .response info _ _ => if info.isEmpty then "logged" else "logged-after-informational"
+    | .error _ => "upstream-error")
+
+end S
+
+def serveH : Handler := fun inp impl => do
+  let itemsJ ← inp.getObjValAs? (Array Json) "items"
+  let items ← itemsJ.toList.mapM fun j => do
+    let k ← j.getObjValAs? String "k"
+    let v ← j.getObjValAs? String "v"
+    pure ({ kind := k, v := v.toList } : RItem)
+  let cfgJ := S.fld inp "cfg"
+  let cfg : Fabio.Model.C20Serve.Cfg :=
+    { requestID := S.bytesAt cfgJ "reqid", stsMaxAge := S.intAtK cfgJ "sts", stsSubdomains := S.boolAt cfgJ "sub", stsPreload := S.boolAt cfgJ "pre" }
+  let reqs := ((inp.getObjValAs? (Array Json) "reqs").toOption.getD #[]).toList
+  if isPanicJ impl then
+    return ({ model := Json.null, agree := false, spec := false, nontrivial := true, tag := "panic" } : Verdict).toJson
+  let format := items.flatMap itemSrc
+  if (impl.getObjVal? "new_err").toOption.isSome then
+    let mErr : Bool := match parse format with
+      | .ok (.ok (_ :: _)) => false
+      | _ => true
+    return ({ model := Json.mkObj [("new_err", mErr)], agree := mErr, spec := !wellSeparated items || mErr, nontrivial := false, tag := "new-error" } : Verdict).toJson
+  let outs := ((impl.getObjValAs? (Array Json) "reqs").toOption.getD #[]).toList
+  if outs.length != reqs.length then throw "impl: wrong number of requests"
+  let vs := (reqs.zip outs).map fun (rq, out) => S.judge cfg items rq out
+  let model := Json.mkObj [("reqs", Json.arr (vs.map (·.model)).toArray)]
+  let implV := Json.mkObj [("reqs", Json.arr (vs.map (·.implView)).toArray)]
+  let ids := vs.filterMap (·.reqid)
+  let idsDistinct := ids.eraseDups.length == ids.length
+  let firstBad := (vs.filter (!·.spec)).head?
+  let sep := wellSeparated items
+  let spec := !sep || (vs.all (·.spec) && idsDistinct)
+  let tag := if !sep then "ill-separated" else match firstBad with
+    | some v => v.tag
+    | none => if !idsDistinct then "request-id-repeated" else match vs with
+      | [v] => v.tag
+      | _ => "several-requests"
+  return ({ model := model, agree := model == implV, spec := spec, nontrivial := sep && vs.any (·.logged), tag := tag } : Verdict).toJson
+
 def streams : List (String × Handler) := [
   ("c20.atoi", atoiH), ("c20.i32toa", i32toaH), ("c20.i32block", i32blockH), ("c20.i32sweep", i32sweepH), ("c20.uint16", uint16H),
   ("c20.uuid", uuidH), ("c20.hostport", hostportH), ("c20.parse", parseH), ("c20.render", renderH), ("c20.concurrent", concurrentH),
-  ("c20.capture", captureH), ("c20.reentrant", reentrantH)]
+  ("c20.capture", captureH), ("c20.reentrant", reentrantH),
+  ("c20.url", urlH), ("c20.serve", serveH)]
 end Fabio.Driver.C20
